@@ -68,6 +68,8 @@ pub struct LMovie {
     pub force_v1: bool,
     /// 64-bit size header on mdat
     pub large_mdat: bool,
+    /// mdat is the last box of the file and declares size 0 ("to the end of the file"); needs !mdat_first, no top_back
+    pub mdat_open_ended: bool,
     /// extra top-level boxes placed between ftyp and the rest / after everything
     pub top_front: Vec<Node>,
     pub top_back: Vec<Node>,
@@ -88,7 +90,7 @@ impl LMovie {
     }
     pub fn new(timescale: u32, tracks: Vec<LTrack>) -> LMovie {
         let placement = Self::default_placement(&tracks);
-        LMovie { timescale, tracks, placement, moov_extra: vec![], mdat_first: false, mdat_lead: 3, force_v1: false, large_mdat: false, top_front: vec![], top_back: vec![] }
+        LMovie { timescale, tracks, placement, moov_extra: vec![], mdat_first: false, mdat_lead: 3, force_v1: false, large_mdat: false, mdat_open_ended: false, top_front: vec![], top_back: vec![] }
     }
 }
 
@@ -330,7 +332,8 @@ pub fn nodes_opt(m: &LMovie, with_payload: bool) -> Vec<Node> {
     moov_kids.extend(m.moov_extra.iter().cloned());
     let moov = Node::kids(b"moov", moov_kids);
     let ft = ftyp(*b"isom", 512, &[*b"isom", *b"iso2", *b"mp41"]);
-    let md = mdat(payload).with_large(m.large_mdat);
+    let md = mdat(payload).with_large(m.large_mdat).with_open_end(m.mdat_open_ended);
+    assert!(!m.mdat_open_ended || (!m.mdat_first && m.top_back.is_empty()));
     let mut v = vec![ft];
     v.extend(m.top_front.iter().cloned());
     if m.mdat_first {
